@@ -128,6 +128,15 @@ func TestVerifC01(t *testing.T) {
 			"ties at one virtual instant permit either outcome"},
 	}
 	vh.Run(t, cfg, func(c *vh.Case) {
+		if c.Index%8 == 5 {
+			// the streamable HTTP client: calls whose POST is still unanswered when the session fails (c01http_test.go)
+			spec := genC01HTTP(c.R)
+			c.SetSpec(spec)
+			if c.Bubble("", func() { runC01HTTP(c, spec) }) {
+				decideC01HTTP(c, spec)
+			}
+			return
+		}
 		spec := genC01(c.R)
 		c.SetSpec(spec)
 		c.Bubble("", func() { runC01(c, spec) })
